@@ -9,14 +9,14 @@
 (*                                                                         *)
 (* A text is a sequence over a token alphabet that contains every          *)
 (* character class the recognisers distinguish:                            *)
-(*   d   a digit 1..7          z   the digit 0                             *)
+(*   d   a digit 1..9          z   the digit 0                             *)
 (*   m   '-'                   p   '+'                                     *)
 (*   dot '.'                   e   'e' / 'E' (exponent marker, a letter)   *)
 (*   x   'x' (hex marker, a letter)                                        *)
 (*   q   '"'                   bs  '\'                                     *)
 (*   n   the letter 'n' (a letter that is also a valid escape)             *)
-(*   T   the word true  (any case, first letter lower case)                *)
-(*   F   the word false (any case, first letter lower case)                *)
+(*   T   the word true  (any mix of upper and lower case)                  *)
+(*   F   the word false (any mix of upper and lower case)                  *)
 (*   s   a blank (space / tab)                                             *)
 (*   lp  '('                   rp  ')'                                     *)
 (*                                                                         *)
@@ -120,8 +120,9 @@ StrBody(t, i, inside) ==
   ELSE IF inside THEN (IF t[i] = "q" THEN StrBody(t, i + 1, FALSE) ELSE <<t[i]>> \o StrBody(t, i + 1, TRUE))
   ELSE StrBody(t, i + 1, t[i] = "q")
 
-\* the number part of a possibly negated number: '-' blanks* number
-Unsigned(t) == IF t # <<>> /\ Head(t) = "m" THEN TrimL(Tail(t)) ELSE t
+\* the number part of a signed number: one sign, blanks*, number (the grammar reads
+\* "-5" as a sign applied to 5: the same typed value, compared semantically)
+Unsigned(t) == IF t # <<>> /\ Head(t) \in {"m", "p"} THEN TrimL(Tail(t)) ELSE t
 
 Class(txt) ==
   LET t == Trim(txt) IN
